@@ -62,6 +62,14 @@ pub const EXTRA: &[&str] = &[
     "from t | select {k = a, b} | sort b | take 5 | group k (sort b | take 1)",
     "from t | group a (aggregate {m = max b}) | join u (==a) | group m (sort u.d | take 1)",
     "from t | join u (==a) | group {t.a, u.d} (sort t.b | take 1) | sort d | take 3 | group d (sort a | take 1)",
+    // expressions that the resolver folds before the SQL stage sees them
+    "from t | derive {y = case [false => 1, true => 2]}",
+    "from t | derive {y = case [1 == 2 => a, 3 != 3 => b, true => a + b]} | filter y > 1",
+    "from t | derive {y = case [false => 1]}",
+    "from t | derive {y = case [true => a]}",
+    "from t | filter (case [false => a > 1, true => b > 1]) | group (case [2 == 3 => a, true => b]) (aggregate {n = count this})",
+    "from t | derive {y = null ?? a, z = a ?? null, w = (1 == 1) && (a > 1), v = false || (b > 1), u = !true}",
+    "from t | derive {y = 1 + 2 * 3, z = -(-1), w = 'a' == 'a', v = 2 ** 3}",
     // row ranges beyond 32 bits
     "from t | take 4294967296",
     "from t | sort a | take 5000000000..6000000000",
